@@ -35,6 +35,10 @@ static std::string get_readable_ip_address(std::string& wire_ip, bool ipv6)
         buflen = INET_ADDRSTRLEN + 4;
     }
 
+    // inet_ntop() reads 4 or 16 bytes of the address
+    if (wire_ip.size() < (ipv6 ? 16U : 4U))
+        return wire_ip;
+
     char addrBuf[buflen];
     auto ret = inet_ntop(ipv, wire_ip.data(), addrBuf, sizeof(addrBuf));
 
@@ -64,6 +68,10 @@ static std::string get_readable_dname(std::string& wire_dname)
     while (label_len != 0) {
         size += label_len;
         if (size > dname.size())
+            return wire_dname;
+
+        // Next label length byte lies outside of the domain name
+        if (pos > dname.size())
             return wire_dname;
 
         labels++;
